@@ -12,26 +12,28 @@
                  big-mode length before reading (fixes/C12-short-read.patch); pinned: a short
                  read of the underlying bytes.Buffer is accepted, the buffer stays zero-filled
      fix_big     decodeBigInt rejects non-canonical compact forms (fixes/C12-bigint-canonical.patch)
-     fix_bytes   decodeBytes allocates while it reads, at most 4 KiB ahead, and fails on
-                 truncated input (fixes/C12-bytes-alloc.patch); pinned: make([]byte, declared
-                 length) first, then one short read
      fix_map     decodeMap allocates a nil destination map (fixes/C12-map-nil.patch);
                  pinned: panics "assignment to entry in nil map" on the first entry
-   and two hypothetical repairs that are NOT proposed as patches (findings):
+   and three repairs that are NOT proposed as patches (recorded as findings, because existing
+   tests of gossamer pin the defective behaviour, or the semantics is not ours to choose):
+     fix_bytes   decodeBytes would allocate while it reads, at most 4 KiB ahead, and fail on
+                 truncated input; pinned and current: make([]byte, declared length) first, then
+                 one short read, the missing bytes stay zero (finding C12 bytes-overrun;
+                 dot/rpc/modules TestSystemModule_AccountNextIndex pins it)
      fix_uint57  decodeUint would accept the 5..7-byte big mode that encodeUint emits (pkg/scale's
-                 own tests pin the rejection: finding C11 uint-5to7)
+                 own Test_decodeState_decodeUint pins the rejection: finding C11 uint-5to7)
      strict_map  decodeMap would reject keys that are not strictly ascending (finding C12
                  map-noncanonical)
-   [current] = the tree with the four proposed patches applied: what the checks compare the Go
-   code with and what the theorems are about; [pinned] = the pinned tree, kept for the _refuted
-   witnesses; [ideal] = all six, used to state exactly what the two findings cost. *)
+   [current] = the tree with the proposed patches applied: what the checks compare the Go
+   code with; [pinned] = the pinned tree, kept for the _refuted witnesses; [ideal] = all six:
+   the decoder for which the properties hold without exception. *)
 From Common Require Import Bytes Outcome.
 From Scale Require Import Compact Types.
 Local Open Scope N_scope.
 
 Record cfg := { fix_read : bool; fix_big : bool; fix_bytes : bool; fix_map : bool;
                 fix_uint57 : bool; strict_map : bool }.
-Definition current : cfg := {| fix_read := true; fix_big := true; fix_bytes := true; fix_map := true;
+Definition current : cfg := {| fix_read := true; fix_big := true; fix_bytes := false; fix_map := true;
                                fix_uint57 := false; strict_map := false |}.
 Definition pinned : cfg := {| fix_read := false; fix_big := false; fix_bytes := false; fix_map := false;
                               fix_uint57 := false; strict_map := false |}.
